@@ -21,6 +21,9 @@ const char* ref_type_name(unsigned);
 int cur_synth(const char*, unsigned, const unsigned char*, size_t, char**, size_t*, char**, size_t*, char**, size_t*);
 int ref_synth(const char*, unsigned, const unsigned char*, size_t, char**, size_t*, char**, size_t*, char**, size_t*);
 int cur_roundtrip(const char*, size_t, char**, size_t*);
+void cur_set_force(int, unsigned long long);
+void ref_set_force(int, unsigned long long);
+void cur_sweep(int, int, unsigned, unsigned, unsigned, void (*)(void*, const unsigned char*, size_t), void*, unsigned long long*, unsigned long long*);
 int ref_roundtrip(const char*, size_t, char**, size_t*);
 }
 
@@ -151,8 +154,10 @@ Verdict crossRead(const std::string& F, const std::string& label, const std::str
 }
 
 Verdict prop(Tape& t, Run& run) {
-	uint8_t dom = t.u8() % 3;
-	if (dom == 1) {
+	// domain byte: >= 0xF0 single subject with one forced integer-like read; 0xEF sample file; otherwise
+	// single subject; odd bytes below 0xEF skip the (expensive) cross read and compare the traces only
+	uint8_t dom = t.u8();
+	if (dom == 0xEF || dom == 1) {
 		auto& cp = corpus(run.args.corpus);
 		if (cp.empty())
 			return OK;
@@ -161,14 +166,25 @@ Verdict prop(Tape& t, Run& run) {
 		run.nontriv(fnv1a(cp[i].bytes));
 		return crossRead(cp[i].bytes, cp[i].name, "sample", run, "C08:" + cp[i].name);
 	}
+	const bool forced = dom >= 0xF0;
+	const bool traceOnly = !forced && dom >= 2 && (dom & 1);
 	auto& types = curTypes();
 	size_t ti = t.u16() % types.size();
 	unsigned vi = t.u8() % kNumVersions;
 	const std::string& type = types[ti];
 	const std::string version = kVersionNames[vi];
+	if (forced) {
+		int k = t.u8() % 32;
+		unsigned v = t.u8() % 32;
+		cur_set_force(k, v);
+		ref_set_force(k, v);
+		run.cls("forced-read");
+	}
 	std::vector<uint8_t> rest = t.rest();
 	Synth c = doSynth(cur_synth, type, vi, rest.data(), rest.size());
 	Synth r = doSynth(ref_synth, type, vi, rest.data(), rest.size());
+	cur_set_force(-1, 0);
+	ref_set_force(-1, 0);
 	run.cls("kind:synth");
 	run.cls("version:" + version);
 	const std::string sigBase = "C08:" + type + "@" + version;
@@ -211,6 +227,11 @@ Verdict prop(Tape& t, Run& run) {
 	}
 	if (c.payload != r.payload)
 		return run.fail(sigBase + ":trace", detail("same read sequence but different recorded payload", ""));
+	if (traceOnly) {
+		run.cls("trace-only");
+		return OK;
+	}
+	run.cls("trace+cross-read");
 	return crossRead(c.file, type, version, run, sigBase);
 }
 
@@ -238,7 +259,7 @@ int main(int argc, char** argv) {
 	h.prop = prop;
 	h.deterministic = deterministic;
 	h.maxTape = 2000;
-	h.quickCases = 40000;
+	h.quickCases = 120000;
 	h.thoroughCases = 1500000;
 	h.rule = "case = (block type, version, tape) synthesised by BOTH builds, or a sample file; checked: identical read "
 			 "trace and payload in both builds, then cross read: files written by either build are accepted and "
